@@ -13,6 +13,14 @@ CLAIMED = {
             "positions were drawn. A structural necessary condition; binding of the hash/Merkle scheme is assumed.",
             "rustc nightly type checker + MIR construction; the Python dominance/slice engine; hash and vector "
             "commitment binding (cryptographic)", "DESIGN.md section 4, C03"),
+    "C09": ("MIR must-pass-through (per-iteration and function-level edge cuts), comparison-direction canonicalisation, def-use provenance on FriVerifier::{new,verify,verify_generic}",
+            "Decides that each rejection check the FRI verifier's soundness rests on (length mismatch, unsupported folding "
+            "factor, per-layer commitment opening, per-layer folding consistency, degree truncation, remainder degree bound, "
+            "remainder evaluation at every query, remainder commitment) lies on every accepting path / every loop iteration, "
+            "rejects in the right direction and is wired to the commitment-checked data. Does not decide the probability of "
+            "catching a far function (cryptographic) nor the algebra of folding (value-level).",
+            "rustc nightly MIR; Python CFG/slice engine; value-level correctness of get_query_values/interpolate_batch/eval assumed",
+            "DESIGN.md section 4, C09"),
 }
 
 NOT_APPLICABLE = {
